@@ -59,7 +59,10 @@ def run_behaviour(bid, beh, seed, observe=None, expose=None):
         init = {str(i + 1): v for i, v in enumerate(init)}
     for o, shape in init.items():
         ro_text = g.ro(shape)
-        ro = parse_ro(ro_text)
+        try:
+            ro = parse_ro(ro_text)
+        except Exception:  # noqa: BLE001 - the reference parser reads this text
+            return [execute.parse_event("%s.0.o%s" % (bid, o), "ro")]
         if not execute.same_reading(ro, ro_text):
             return [execute.parse_event("%s.0.o%s" % (bid, o), "ro")]
         if not project.bind(shape, project.project_ro(ro), table):
@@ -94,6 +97,9 @@ def run_behaviour(bid, beh, seed, observe=None, expose=None):
                 try:
                     m = parse_msg(text)
                 except Exception as e:  # noqa: BLE001
+                    if type(e).__name__ == "MosInvalidXML":        # the text is well-formed: the reference parser has read it
+                        events.append(execute.parse_event(eid, "msg"))
+                        return events
                     ev.update(post=ev["pre"], status=("unclassified" if isinstance(e, exc.MosRoMgrException) else "crash:" + type(e).__name__),
                               completed_acc=execute.completed_of(ro))
                     events.append(ev)
